@@ -441,7 +441,9 @@ func (s *Sched) Run(until func() bool) error {
 			continue
 		}
 		idle, idleTotal = 0, 0
-		if s.cfg.TimeEvery > 0 && s.tape.Intn(s.cfg.TimeEvery) == 0 {
+		// (a zero tape value - the padding of shortened replay tapes - must mean "no time step", or a padded
+		// replay would sleep forever)
+		if s.cfg.TimeEvery > 0 && s.tape.Intn(s.cfg.TimeEvery) == s.cfg.TimeEvery-1 {
 			time.Sleep(timeChoices[s.tape.Intn(len(timeChoices))])
 			s.TimeSteps++
 			continue // the enabled set may have changed
